@@ -115,6 +115,7 @@ func runC14(c *kernel.Ctx) {
 	issuer := 0 // which broker receives the keyban requests
 	for s := 0; s < steps && !t.Exhausted(); s++ {
 		c.Step()
+		c.State(fmt.Sprintf("banned=%v known1=%v issuer=%d restarts=%d", w.banned, w.known1, issuer, restarts))
 		k := t.Choose(nk)
 		switch op := t.Choose(20); {
 		case op < 2 && issuer == 0: // the requests move to the other broker (only once everything has been delivered)
